@@ -61,8 +61,8 @@ impl AlcCodec for AlcRS28 {
             fec_instance_id: 0,
             maximum_source_block_length: maximum_source_block_length as u32,
             encoding_symbol_length,
-            max_number_of_parity_symbols: num_encoding_symbols as u32
-                - maximum_source_block_length as u32,
+            max_number_of_parity_symbols: (num_encoding_symbols as u32)
+                .saturating_sub(maximum_source_block_length as u32),
             scheme_specific: None,
             inband_fti: true,
         };
